@@ -31,8 +31,41 @@ WIDE_PROBES = [N11[:10], N11 + "k", N11 + "z", N11 + "la", "zbcdefghijk", "ZBCDE
 WIDE_PREFIXES = ["a", "ab", N11[:10], N11, N11 + "l", N11 + "m", N11.upper() + "L", N11 + "k", "z", "Zbcdefghijkl", N11 + "la", ""]
 
 
+# names with bytes >= 0x80 (a foreign .BRD; Big5 text): the comparison helpers must order and match them byte-wise, folding only
+# 'A'..'Z'. Two names that differ only in their high bytes, names whose order is decided by a high byte against another high byte
+# or against an ASCII byte, a pair that is "equal up to case" only for a UTF-8 aware lower-casing (C3 89 / C3 A9), twin-free.
+HPOOL = ["", "a", "az", "a\xb4", "a\xc0z", "\xa4b", "\xb4\xfax", "\xb5a", "\xb8\xd5x", "\xc3\xa9x"]
+HPROBES = ["\xb4\xfaX", "\xB8\xd5X", "A\xb4", "\xb4\xfay", "\xb8\xd6x", "\xb4\xfbx", "\xa4", "\x80", "\xc3\x89x", "\xc3\x89X", "\xff\xfe", "b", "AZ"]
+HCLASSES = ["AAAA ", "\xa4\xdf\xb1\x6f ", "\xa4\xdf\xb1\xe5 "]
+HPREFIXES = ["\xb4", "\xb4\xfa", "\xb4\xfaX", "\xb8", "\xb8\xd5", "a", "a\xb4", "A\xc0", "\xa4", "\xc3", "\xc3\x89", "\xb6", "\x80"]
+
+# filtered listings (LoadGeneralBoards with a title / keyword filter): whole titles = class, blank, the rest, with Big5 text.
+# The filters are matched byte-wise after folding 'A'..'Z' (types.Cstrcasestr); F_BIG5 = two Big5 characters.
+F_BIG5 = "\xb4\xfa\xb8\xd5"
+FTITLES = ["AAAA \xa1\xb7" + F_BIG5 + " test",                 # holds the filter
+           "AAAA \xa1\xb7\xa4\xdf\xb1\xe5board",                 # four OTHER high bytes
+           "\xa4\xdf\xb1\x6f \xa1\xb7\xb4\xfaTest\xb8\xd5",        # the filter's bytes, not adjacent
+           "BBBB \xa1\xb7plain ASCII Title",
+           "BBBB \xb8\xd5\xb4\xfa",                               # the two characters the other way round, no more text
+           "NB   \xa1\xb7" + F_BIG5 + F_BIG5,
+           "\xa4\xdf\xb1\xe5 \xa1\xb7\xb4\xfa\xb8\xd6"]             # differs from the filter in its last byte
+FNAMES = ["ab", "Abc", "b1", "sysop", "k\xb4\xfa", "Zz", "TESTER", "k\xb8\xd5"]
+TITLE_FILTERS = [F_BIG5, "\xb8\xd5", "\xb4\xfa\xb8\xd6", "\xb4\xfa\xb8\xd7", "TEST", "test", "\xa4\xdf", "\xa1\xb7\xb4", "zzz", "\xc0\xc1\xc2\xc3", "Title\xb8"]
+KEYWORD_FILTERS = ["\xb4\xfa", "AB", "\xb8\xd5", "sys", "\xb9\xfa", "tEsT", "\xb8\xd5\xb4"]
+
+# article-index states of the boards' own .DIR (driver op 11); 2..7 are what an unrelated feature / a long-lived site leaves behind
+DIR_STATES = {0: "no .DIR", 1: "two records with 10-digit time-stamps", 2: "last record M.997843374.A.1EA (9-digit time-stamp)", 3: ".DIR is a directory",
+              4: "one record with an all-NUL filename", 5: "one record 'garbage' + half a record", 6: "last record .d (safe-deleted)",
+              7: "valid .DIR, .DIR.bottom is a directory"}
+
+
 def low(s):
     return bytes(c + 32 if 65 <= c <= 90 else c for c in s.encode("latin-1"))
+
+
+def aup(s):
+    """upper case of the ASCII letters only (str.upper would map U+00B5 and friends)"""
+    return "".join(chr(ord(ch) - 32) if "a" <= ch <= "z" else ch for ch in s)
 
 
 def ccmp(a, b):
@@ -442,6 +475,28 @@ def main():
                 seen.add(s_.lower()); nm_l.append(s_)
         tables.append((nm_l, [rng.choice(WIDE_CLASSES) for _ in nm_l]))
     n_wide = len(tables) - first_wide
+    # tables over the high-byte pool: every ordered selection of <= 2, every subset of 3 in one PRNG order, sampled larger ones, the whole pool
+    first_high = len(tables)
+    for n in range(1, len(HPOOL) + 1):
+        if n <= 2:
+            sels = list(itertools.permutations(HPOOL, n))
+        elif n == 3:
+            sels = []
+            for comb in itertools.combinations(HPOOL, n):
+                perm = list(comb); rng.shuffle(perm); sels.append(tuple(perm))
+        else:
+            sels = []
+            for _ in range((6 if n < len(HPOOL) else 4) * (4 if thorough else 1)):
+                perm = list(HPOOL); rng.shuffle(perm); sels.append(tuple(perm[:n]))
+        for sel in sels:
+            if not any(ord(ch) >= 0x80 for nm in sel for ch in nm):
+                continue
+            tables.append((list(sel), ["\0\0\0\0\0" if nm == "" else HCLASSES[(pos + len(nm)) % 3] for pos, nm in enumerate(sel)]))
+    n_high = len(tables) - first_high
+    c.cov["exhaustive_parts"].append("high-byte tables over the names %r (bytes >= 0x80: names differing only in their high bytes, order decided by a high byte, "
+                                     "a pair equal only for a UTF-8 aware lower-casing): every ordered selection of <= 2, every subset of 3, sampled larger ones, the whole pool: "
+                                     "%d tables; GetBid / FindBoardIdxByName for every pool name, its upper case and %d probes, FindBoardIdxByClass with Big5 classes, "
+                                     "auto-completion with high-byte prefixes, by-name / by-class / auto-complete listing walks" % (HPOOL, n_high, len(HPROBES)))
     c.cov["exhaustive_parts"].append("field-width tables over the names %r (lengths 1, 2, 11, 12 = the full BoardID_t, shared 11-character prefixes): every ordered selection of <= 3, "
                                      "every subset of 4..6 in sampled orders, the whole pool, + twin-free random tables of 6..39 boards with 11/12-character names: %d tables; "
                                      "all lookups, by-name / by-class / auto-complete listing walks (both directions, page sizes 1..n+1)" % (WIDE, n_wide))
@@ -531,10 +586,46 @@ def main():
                     add("acwalk", t, sn, "6|%s|%s|%d %d" % (T, toks(kw), k, asc), None, (kw, k, asc))
         add_class_walks(t, by_class)
 
+    def add_high_queries(t, by_name, by_class):
+        names, titles = t
+        n = len(names)
+        small = n <= 3
+        sn = [names[i] for i in by_name]
+        sc_n = [names[i] for i in by_class]
+        sc_t = [titles[i] for i in by_class]
+        T = tb(t)
+        pool_q = [x for x in HPOOL if x]
+        qs = pool_q + [aup(x) for x in pool_q if aup(x) != x] + HPROBES
+        if not small:
+            qs = [x for x in names if x] + rng.sample(qs, 8)
+        for q in qs:
+            add("getbid", t, by_name, "1|%s|%s" % (T, toks(q)), "1|%s|%s|%s" % (names_wire(sn), " ".join(str(i + 1) for i in by_name), toks(q)), q)
+            for asc in (1, 0):
+                add("byname", t, sn, "2|%s|%s|%d" % (T, toks(q), asc), "2|%s|%s|%d" % (names_wire(sn), toks(q), asc), (q, asc))
+        for cl in ["AAAA", "\xa4\xdf\xb1\x6f", "\xa4\xdf\xb1\xe5", "\xa4\xdf\xb1\xe4", "\xa4\xe0"]:
+            for q in (["\xb4\xfax", "\xb8\xd5X", "a", "\xb6"] if small else rng.sample(pool_q, 2)):
+                for asc in (1, 0):
+                    add("byclass", t, (sc_t, sc_n), "3|%s|%s|%s|%d" % (T, toks(cl), toks(q), asc),
+                        "3|%s|%s|%s|%s|%d" % (titles_wire(sc_t), names_wire(sc_n), toks(cl), toks(q), asc), (cl, q, asc))
+        for kw in HPREFIXES:
+            for asc in (1, 0):
+                add("autocomplete", t, sn, "4|%s|%s|%d" % (T, toks(kw), asc), "4|%s|%s|%d" % (names_wire(sn), toks(kw), asc), (kw, asc))
+        for k in (range(1, n + 2) if small else [1, 2, n]):
+            for asc in (1, 0):
+                add("walk", t, sn, "5|%s|%d %d" % (T, k, asc), "5|%s|%d %d" % (names_wire(sn), k, asc), (k, asc))
+        for kw in ["\xb4", "a", "\xb8\xd5", "\xc3"]:
+            for k in ((1, 2) if small else (1, 3)):
+                for asc in (1, 0):
+                    add("acwalk", t, sn, "6|%s|%s|%d %d" % (T, toks(kw), k, asc), None, (kw, k, asc))
+        add_class_walks(t, by_class)
+
     for ti, (t, (by_name, by_class)) in enumerate(zip(tables, sorted_of)):
         names, titles = t
         n = len(names)
         if len(by_name) != n:
+            continue
+        if ti >= first_high:
+            add_high_queries(t, by_name, by_class)
             continue
         if ti >= first_wide:
             add_wide_queries(t, by_name, by_class)
@@ -584,6 +675,69 @@ def main():
                                      "padded with blanks/NULs and sharing prefixes (%d tables), every page size 1..n+1, both directions" % len(ctables))
     for t, (by_name, by_class) in zip(ctables, load_tables(ctables)):
         add_class_walks(t, by_class)
+
+    # ---------------------------------------------------------------- filtered listings (op 10): whole titles with Big5 text
+    def ftitles_wire(fts):
+        return " ".join((toks(x) + " 0") if x else "0" for x in fts)
+
+    ftables = []
+    for n in ([1, 2, 3, 3, 4, 4, 5, 6, 7] * (3 if thorough else 1)) + [len(FTITLES)]:
+        nm_l = rng.sample(FNAMES, min(n, len(FNAMES)))
+        tt_l = [rng.choice(FTITLES) for _ in nm_l] if n < len(FTITLES) else rng.sample(FTITLES, len(nm_l))
+        if n >= 3:
+            i = rng.randrange(len(nm_l)); nm_l[i] = ""; tt_l[i] = ""          # a vacated slot
+        ftables.append((nm_l, tt_l))
+    ftables.append((list(FNAMES[:len(FTITLES)]), list(FTITLES)))
+    f5 = [(nm, [(x[:5] if x else "\0\0\0\0\0") for x in tt]) for nm, tt in ftables]
+    for (names, ftitles), t5, (by_name, by_class) in zip(ftables, f5, load_tables(f5)):
+        n = len(names)
+        if len(by_name) != n:
+            continue
+        for by, order in ((0, by_name), (1, by_class)):
+            sn = [names[i] for i in order]
+            sf = [ftitles[i] for i in order]
+            for mode, flt in [(1, x) for x in TITLE_FILTERS] + [(2, x) for x in KEYWORD_FILTERS]:
+                for k in sorted({1, 2, n + 1}):
+                    for asc in (1, 0):
+                        add("fwalk", (names, ftitles), (sn, sf), "10|%s|%s|%d %s|%d %d %d" % (names_wire(names), ftitles_wire(ftitles), mode, toks(flt), k, asc, by),
+                            "10|%s|%s|%d %s|%d %d %d" % (names_wire(sn), ftitles_wire(sf), mode, toks(flt), k, asc, by), (mode, flt, k, asc, by))
+    c.cov["exhaustive_parts"].append("filtered listings: %d tables with whole titles from %d Big5/ASCII titles (the filter present, four other high bytes, the filter's bytes "
+                                     "not adjacent / reversed / differing in the last byte) x %d title filters + %d keyword filters (Big5, ASCII in both letter cases, absent) "
+                                     "x by name / by class x both directions x page sizes 1, 2, n+1" % (len(ftables), len(FTITLES), len(TITLE_FILTERS), len(KEYWORD_FILTERS)))
+
+    # ---------------------------------------------------------------- listings while the boards' own article indexes are in odd states (op 11)
+    dcand = [(t, so) for ti, (t, so) in enumerate(zip(tables, sorted_of))
+             if 2 <= len(t[0]) <= 6 and len(so[0]) == len(t[0]) and len({low(x) for x in t[0]}) == len(t[0]) and all(x[4] in " \0" for x in t[1])
+             and not any(ch in nm for nm in t[0] for ch in "@/.")]
+    dsel = rng.sample(dcand, min(len(dcand), 60 if thorough else 14)) + [x for x in dcand if any(ord(ch) >= 0x80 for nm in x[0][0] for ch in nm)][:3]
+    for t, (by_name, by_class) in dsel:
+        names, titles = t
+        n = len(names)
+        T = tb(t)
+        vecs = [[st] * n for st in (2, 3, 4, 5, 7)]
+        for st in (2, 4, 5, 6):
+            v = [rng.choice([0, 1]) for _ in names]; v[rng.randrange(n)] = st; vecs.append(v)
+        vecs.append([rng.randrange(8) for _ in names])
+        for v in vecs:
+            v = [0 if nm == "" else x for nm, x in zip(names, v)]
+            for by, order in ((0, by_name), (1, by_class)):
+                sn = [names[i] for i in order]
+                st_ = [titles[i] for i in order]
+                sv = [v[i] for i in order]
+                for k in sorted({1, 2, n}):
+                    for asc in (1, 0):
+                        ml = "5|%s|%d %d" % (names_wire(sn), k, asc) if by == 0 else "7|%s|%s|%d %d" % (titles_wire(st_), names_wire(sn), k, asc)
+                        add("dwalk", t, (sn, sv), "11|%s|%s|%d %d %d" % (T, " ".join(str(x) for x in v), k, asc, by), ml, (tuple(v), k, asc, by, ""))
+            sn = [names[i] for i in by_name]
+            sv = [v[i] for i in by_name]
+            kw = next((low(nm[:1]).decode("latin-1") for nm in names if nm), "a")     # lower case: a last byte 'Z' is the known finding of descending auto-completion
+            if kw in "@\xff":
+                kw = "a"
+            for asc in (1, 0):
+                add("dwalk", t, (sn, sv), "11|%s|%s|%d %d 2|%s" % (T, " ".join(str(x) for x in v), 1, asc, toks(kw)), None, (tuple(v), 1, asc, 2, kw))
+    c.cov["exhaustive_parts"].append("listings right after ReloadBCache (no article count cached) with the boards' own article indexes in the states %r: %d twin-free tables x "
+                                     "(every board in state 2 / 3 / 4 / 5 / 7, one board in state 2 / 4 / 5 / 6 among ordinary ones, a PRNG(seed) mix) x by name / by class "
+                                     "(page sizes 1, 2, n) / auto-complete x both directions" % (DIR_STATES, len(dsel)))
 
     io = vf.run_impl(impl, "C11", impl_lines, deadline_ms=20000)
     if model:
@@ -648,7 +802,7 @@ def main():
             else:
                 key = "%s-%s%s" % (kind, "crash" if f[0] == "1" else "hang", fw(names) if kind in ("walk", "acwalk") else "")
             c.violation(key, "%s(%r) on table %r: %s" % (kind, info, names, "panics" if f[0] == "1" else
-                        ("is not over after 2n+3 pages (the next-cursor does not advance)" if kind in ("walk", "acwalk") else "does not return")), {"cases": [l], "got": o})
+                        ("is not over after 2n+3 pages (the next-cursor does not advance)" if kind in ("walk", "acwalk", "fwalk", "dwalk") else "does not return")), {"cases": [l], "got": o})
             continue
         c.nontrivial((kind, tuple(names), info))
         if kind not in sampled:
@@ -732,6 +886,41 @@ def main():
                     "by-name" if kind == "walk" else "auto-complete", k, "asc" if asc else "desc", "" if kind == "walk" else ", prefix %r" % kw, sn, o, want),
                     {"cases": [l], "expected": want, "got": o})
 
+        elif kind == "fwalk":
+            sn, sf = so
+            mode, flt, k, asc, by = info
+            lf = low(flt)
+
+            def listed(nm, ft):
+                if not nm:
+                    return False
+                if mode == 1:
+                    return lf in low(ft)
+                return lf in low(ft) or lf in low(nm)
+            vis = [i + 1 for i, (nm, ft) in enumerate(zip(sn, sf)) if listed(nm, ft)]
+            if not asc:
+                vis = vis[::-1]
+            want = "0 %d%s" % (max(1, -(-len(vis) // k)), "".join(" %d" % v for v in vis))
+            if o.strip() != want:
+                c.violation("filtered-listing-%s%s" % ("title" if mode == 1 else "keyword", "-high-bytes" if any(ord(ch) >= 0x80 for ch in flt) else ""),
+                            "%s listing with the %s filter %r (page size %d, %s) over [(name, title)] = %r: [status pages positions...] = %s, the boards whose %s "
+                            "the filter (byte-wise, 'A'..'Z' folded), each once in order, are %s" % (
+                                "by-class" if by else "by-name", "title" if mode == 1 else "keyword", flt, k, "asc" if asc else "desc", list(zip(sn, sf)), o,
+                                "title contains" if mode == 1 else "title or name contains", want), {"cases": [l], "expected": want, "got": o})
+        elif kind == "dwalk":
+            sn, sv = so
+            v, k, asc, by, kw = info
+            vis = [i + 1 for i, nm in enumerate(sn) if nm and (by != 2 or low(nm).startswith(low(kw)))]
+            if not asc:
+                vis = vis[::-1]
+            want = "0 %d%s" % (max(1, -(-len(vis) // k)), "".join(" %d" % x for x in vis))
+            if o.strip() != want:
+                odd = sorted({x for x in sv if x >= 2})
+                c.violation("listing-drops-board-with-odd-article-index",
+                            "%s listing (page size %d, %s%s) right after ReloadBCache over [(name, state of the board's own article index)] = %r (%s): [status pages positions...] = %s, "
+                            "every visible board once in order is %s - the state of a board's article index must not remove it from a listing nor end the paging" % (
+                                ["by-name", "by-class", "auto-complete"][by], k, "asc" if asc else "desc", ", prefix %r" % kw if by == 2 else "",
+                                list(zip(sn, sv)), "; ".join("%d = %s" % (x, DIR_STATES[x]) for x in odd), o, want), {"cases": [l], "expected": want, "got": o})
         elif kind == "cwalk":
             st, sn = so
             k, asc = info
